@@ -12,14 +12,13 @@
            type reported for call i ([chain_run_sound])
    Part 4  evaluation of the path is the chain of run_func calls
    Part 5  C14b_chain_sound (end to end) and its CueValidate-level corollary
-   Part 6  examples through the real parser; the refutations
+   Part 6  examples through the real parser; the repaired finding F31; the refutations
 
    The class covered by the soundness theorem: a key path followed by n >= 1
    calls of table functions other than Select, with literal arguments that match
-   the descriptors in number and kind, where First / Last / Index occur in the
-   first position only.  See the comment before [elem_first_only] and the
-   refutations of Part 6 for why that restriction cannot be dropped, and
-   [chain_side] for the side conditions on the intermediate values. *)
+   the descriptors in number and kind (First / Last / Index in any position,
+   see [reported_agrees]).  See [chain_side] for the side conditions on the
+   intermediate values. *)
 From Coq Require Import String List ZArith Lia Bool.
 From Mpath.Model Require Import Base Dec Types GoVal Ast Lexer Parser Funcs Cue Validate Eval.
 From Mpath.Generated Require Import FuncTable.
@@ -297,23 +296,17 @@ Fixpoint chain_admits (v : cty) (prev : ioty) (ds : list fdesc) : bool :=
   | d :: rest => admits (fd_on d) prev && chain_admits v (reported d v (Some prev)) rest
   end.
 
-(** ** the restriction on element-returning functions
+(** ** element-returning functions anywhere in the chain
 
     First, Last and Index (Returns Any Single) report the element type of the
     schema value at the cue path — which opPath.Validate does not advance over a
-    call.  In the first position that value IS the receiver's schema value
-    (C14_reported_type_element).  In a later position it is not: among the table
-    functions other than Select only AsArray returns an Array, so an admitted
-    First / Last / Index that is not the first call follows AsArray; its receiver
-    is the one-element array [[x1, …]] and its result the original list, while
-    the type reported is the element type of that list
-    ([C14b_asarray_first_refuted]).  The soundness theorem therefore covers the
-    chains in which these three functions occur in the first position only. *)
-Definition elem_first_only (cs : list rcall) : bool :=
-  match cs with
-  | [] => true
-  | _ :: rest => forallb (fun c : rcall => negb (ioty_eqb (fd_ret (fst c)) AnyS)) rest
-  end.
+    call — only when that type is the type of the receiver as the previous part
+    reported it (repair of finding F31; before it the element type was reported
+    after another call as well, e.g. (String, Single) for `$.ls.AsArray().First()`,
+    which returns the list).  So the type reported for such a call is the element
+    type of its receiver or the weaker (Any, Single), in every position
+    ([reported_agrees]), and the soundness theorem needs no restriction on where
+    these functions occur ([C14b_asarray_first_repaired]). *)
 
 (** ** side conditions on the values met along the run
 
@@ -407,29 +400,43 @@ Proof.
   rewrite (sound_reported_plain _ _ (auto_plain_not_elem _ Ea)) in Hty. exact Hty.
 Qed.
 
-(** the calls after the first: none returns (Any, Single) *)
+(** the type a call reports, given a receiver type [rty] that agrees with the type
+    [sty] its receiver has, agrees with the type evaluation was checked against *)
+Lemma reported_agrees d v rty sty :
+  implb (fd_known d) (ptype_eqb (fst (fd_ret d)) PT_Any) = true ->
+  agrees rty sty -> agrees (reported d v (Some rty)) (sound_reported (fd_ret d) sty).
+Proof.
+  intros Hk Hag. destruct (ioty_eqb (fd_ret d) AnyS) eqn:Er.
+  - apply ioty_eqb_eq in Er. unfold reported. rewrite Er. unfold agrees, AnyS.
+    destruct Hag as [->|[-> Hs]].
+    + destruct sty as [pt io].
+      destruct (underlying_kind v), pt, io, (fd_known d); cbn;
+        first [left; reflexivity | right; split; reflexivity].
+    + destruct (underlying_kind v), (fd_known d); cbn; right; split; reflexivity.
+  - left. rewrite (sound_reported_plain _ _ Er). apply C14_reported_type_plain; assumption.
+Qed.
+
+(** the invariant along the calls: the value has a type [sty] with which the
+    reported type [rty] agrees *)
 Lemma chain_tail_sound eng v : forall cs rty sty g,
-  Forall (fun c : rcall => call_ok c /\ ioty_eqb (fd_ret (fst c)) AnyS = false) cs ->
+  Forall call_ok cs ->
   agrees rty sty -> chain_admits v rty (map fst cs) = true ->
   has_type g sty -> (cs <> [] -> plain_strings g) -> chain_side eng cs g ->
   np (chain_run eng cs g) /\ typed_outcome (chain_run eng cs g) (chain_rtype v rty (map fst cs)).
 Proof.
   induction cs as [|c rest IH]; intros rty sty g Hall Hag Hadm Hty Hpl Hside.
   - cbn. split; [exact I|]. apply (has_type_agrees g rty sty Hag Hty).
-  - destruct c as [d args]. inversion Hall as [|c0 l0 [Hok Hret] Hrest]; subst. cbn [fst snd] in *.
+  - destruct c as [d args]. inversion Hall as [|c0 l0 Hok Hrest]; subst. cbn [fst snd] in *.
     cbn [map chain_admits fst] in Hadm. apply andb_true_iff in Hadm. destruct Hadm as [Hadm1 Hadm2].
     cbn [chain_side fst snd] in Hside. destruct Hside as [Hrecv Hside].
     assert (Hplg : plain_strings g) by (apply Hpl; discriminate).
     destruct (chain_step eng d args rty sty g Hok Hag Hadm1 Hty Hplg Hrecv) as [Hnp Hto].
-    assert (Hrep : reported d v (Some rty) = fd_ret d).
-    { apply C14_reported_type_plain; [exact Hret|]. apply table_known. apply Hok. }
-    cbn [map chain_rtype chain_run fst snd]. rewrite Hrep in *.
+    assert (Hag' : agrees (reported d v (Some rty)) (sound_reported (fd_ret d) sty)).
+    { apply reported_agrees; [|exact Hag]. apply table_known. apply Hok. }
+    cbn [map chain_rtype chain_run fst snd].
     destruct (run_func eng (fd_key d) args (convert_number g)) as [r|e|m| |w]; cbn [bind].
     + destruct Hside as [Hp Hside]. cbn [typed_outcome] in Hto.
-      apply (IH (fd_ret d) (sound_reported (fd_ret d) sty) r Hrest).
-      * left. symmetry. apply sound_reported_plain. exact Hret.
-      * exact Hadm2.
-      * exact Hto.
+      apply (IH (reported d v (Some rty)) (sound_reported (fd_ret d) sty) r Hrest Hag' Hadm2 Hto).
       * intros Hne. apply (next_plain d sty r Hto). apply Hp. exact Hne.
       * exact Hside.
     + split; [exact I|]. exact Hto.
@@ -438,48 +445,17 @@ Proof.
     + split; exact I.
 Qed.
 
-Lemma elem_first_only_tail c rest :
-  Forall call_ok (c :: rest) -> elem_first_only (c :: rest) = true ->
-  Forall (fun c : rcall => call_ok c /\ ioty_eqb (fd_ret (fst c)) AnyS = false) rest.
-Proof.
-  intros Hall He. inversion Hall as [|c0 l0 _ Hrest]; subst. cbn [elem_first_only] in He.
-  rewrite forallb_forall in He. rewrite Forall_forall in *. intros x Hx. split; [apply Hrest; exact Hx|].
-  apply negb_true_iff. apply He. exact Hx.
-Qed.
-
 (** the invariant, for the whole chain: the receiver of the first call conforms
     to the schema value [v] *)
 Theorem chain_run_sound : forall eng v cs g,
   wf v = true -> cs <> [] ->
-  Forall call_ok cs -> elem_first_only cs = true ->
+  Forall call_ok cs ->
   chain_admits v (kind_of v) (map fst cs) = true ->
   has_type g (kind_of v) -> plain_strings g -> chain_side eng cs g ->
   np (chain_run eng cs g) /\ typed_outcome (chain_run eng cs g) (chain_rtype v (kind_of v) (map fst cs)).
 Proof.
-  intros eng v cs g Hwf Hne Hall Hel Hadm Hty Hpl Hside.
-  destruct cs as [|[d args] rest]; [congruence|].
-  pose proof (elem_first_only_tail _ _ Hall Hel) as Htail.
-  inversion Hall as [|c0 l0 Hok _]; subst.
-  cbn [map chain_admits fst] in Hadm. apply andb_true_iff in Hadm. destruct Hadm as [Hadm1 Hadm2].
-  cbn [chain_side fst snd] in Hside. destruct Hside as [Hrecv Hside].
-  destruct (chain_step eng d args (kind_of v) (kind_of v) g Hok (or_introl eq_refl) Hadm1 Hty Hpl Hrecv) as [Hnp Hto].
-  assert (Hag : agrees (reported d v (Some (kind_of v))) (sound_reported (fd_ret d) (kind_of v))).
-  { assert (Hk : implb (fd_known d) (ptype_eqb (fst (fd_ret d)) PT_Any) = true) by (apply table_known; apply Hok).
-    destruct (ioty_eqb (fd_ret d) AnyS) eqn:Er.
-    - apply ioty_eqb_eq in Er.
-      destruct (reported_vs_sound d v Hwf Hk) as [E|E]; [left; exact E|].
-      right. split; [exact E|]. rewrite Er. reflexivity.
-    - left. rewrite (sound_reported_plain _ _ Er). apply C14_reported_type_plain; assumption. }
-  cbn [map chain_rtype chain_run fst snd].
-  destruct (run_func eng (fd_key d) args (convert_number g)) as [r|e|m| |w]; cbn [bind].
-  - destruct Hside as [Hp Hside]. cbn [typed_outcome] in Hto.
-    apply (chain_tail_sound eng v rest _ (sound_reported (fd_ret d) (kind_of v)) r Htail Hag Hadm2 Hto).
-    + intros Hne'. apply (next_plain d (kind_of v) r Hto). apply Hp. exact Hne'.
-    + exact Hside.
-  - split; [exact I|]. exact Hto.
-  - destruct Hnp.
-  - split; exact I.
-  - split; exact I.
+  intros eng v cs g _ _ Hall Hadm Hty Hpl Hside.
+  exact (chain_tail_sound eng v cs (kind_of v) (kind_of v) g Hall (or_introl eq_refl) Hadm Hty (fun _ => Hpl) Hside).
 Qed.
 
 (* ------------------------------------------------------------------ *)
@@ -531,6 +507,36 @@ Inductive key_walk : list str -> gv -> gv -> Prop :=
 | kw_one k doc g : do_ident k doc = Ok g -> key_walk [k] doc g
 | kw_cons k ks doc x g :
     do_ident k doc = Ok x -> is_nil x = false -> key_walk ks x g -> key_walk (k :: ks) doc g.
+
+(** from the raw document: a key of a map document; and a JSON-like value of the
+    schema's kind is still one, with no numeral string, after the conversion
+    opPathIdent.Do applies (a float64 becomes a decimal) *)
+Lemma key_walk_map k kt vt isnil kvs x :
+  map_lookup_fold k kvs = Some x -> key_walk [k] (VMap kt vt isnil kvs) (convert_unless_string x).
+Proof. intros H. apply kw_one. unfold do_ident. cbn. rewrite H. reflexivity. Qed.
+
+Definition json_kind (ty : ioty) : bool :=
+  match ty with
+  | (PT_String, IO_Single) | (PT_Boolean, IO_Single) | (PT_Number, IO_Single) | (PT_Object, IO_Single)
+  | (PT_String, IO_Array) | (PT_Boolean, IO_Array) | (PT_Number, IO_Array) | (PT_Object, IO_Array) => true
+  | _ => false
+  end.
+
+Lemma conform_after_key x ty :
+  json_kind ty = true -> has_type x ty -> plain_strings x ->
+  has_type (convert_unless_string x) ty /\ plain_strings (convert_unless_string x).
+Proof.
+  destruct ty as [t i]. destruct t, i; try discriminate; intros _ H Hp; cbn in H;
+    try (destruct H as [n [xs [-> Hall]]]; unfold convert_unless_string; cbn [is_go_string];
+         rewrite convert_slice; split; [eexists _, _; split; [reflexivity|exact Hall]|exact Hp]).
+  - destruct H as [s ->]. split; [eexists; reflexivity|exact Hp].
+  - destruct H as [b ->]. unfold convert_unless_string. cbn [is_go_string]. rewrite convert_bool.
+    split; [eexists; reflexivity|exact Hp].
+  - destruct H as [[d ->]|[d ->]]; unfold convert_unless_string; cbn [is_go_string];
+      [rewrite convert_dec|rewrite convert_float]; (split; [left; eexists; reflexivity|split; exact I]).
+  - destruct H as [n [kvs ->]]. unfold convert_unless_string. cbn [is_go_string]. rewrite convert_map.
+    split; [eexists _, _; reflexivity|exact Hp].
+Qed.
 
 Section Eval.
 Variable uni : uclass.
@@ -669,7 +675,7 @@ Qed.
 
 (** C14 (c) for `$.k.….F1(a1)…Fn(an)`: n >= 1 calls of table functions other
     than Select, with literal arguments that match the descriptors in number and
-    kind, First / Last / Index in the first position only; every call is known,
+    kind; every call is known,
     within its arity and admitted by ValidOn ([chain_accepts]); the value under
     the key path conforms to the schema value there.  Then CueValidate reports
     the type [chain_rtype] and the evaluation does not panic and returns a value
@@ -680,7 +686,6 @@ Theorem C14b_chain_sound : forall uni eng schema k ks fs us cs prev v doc g,
   find_value_at_path schema (k :: ks) = Some v ->
   fs <> [] -> all_some (map call_of fs) = Some cs ->
   forallb (fun c : rcall => rconform (fd_params (fst c)) (snd c)) cs = true ->
-  elem_first_only cs = true ->
   chain_accepts func_table v prev fs = true ->
   key_walk (k :: ks) doc g -> has_type g prev -> plain_strings g -> chain_side eng cs g ->
   let q := chain_path (k :: ks) fs us in
@@ -688,7 +693,7 @@ Theorem C14b_chain_sound : forall uni eng schema k ks fs us cs prev v doc g,
   let ty := chain_rtype v prev (map fst cs) in
   v_type (validate_top schema [] q) = Some ty /\ np o /\ typed_outcome o ty.
 Proof.
-  intros uni eng schema k ks fs us cs prev v doc g Hwf Hw Hv Hne Hcs Hrc Hel Hacc Hkw Hty Hpl Hside q o ty.
+  intros uni eng schema k ks fs us cs prev v doc g Hwf Hw Hv Hne Hcs Hrc Hacc Hkw Hty Hpl Hside q o ty.
   destruct (C14b_chain_reported_type func_table schema k ks fs us prev Hwf Hw)
     as [v' [Hv' [Hk [Hwfv [_ [Rt _]]]]]].
   rewrite Hv in Hv'. injection Hv' as <-.
@@ -748,7 +753,6 @@ Theorem C14b_chain_sound_cue : forall uni eng schema k ks fs us cs prev v doc g,
   find_value_at_path schema (k :: ks) = Some v ->
   fs <> [] -> all_some (map call_of fs) = Some cs ->
   forallb (fun c : rcall => rconform (fd_params (fst c)) (snd c)) cs = true ->
-  elem_first_only cs = true ->
   lit_wellposed v prev fs = true ->
   let q := chain_path (k :: ks) fs us in
   v_has_errors (validate_top schema [] q) = false ->
@@ -757,13 +761,13 @@ Theorem C14b_chain_sound_cue : forall uni eng schema k ks fs us cs prev v doc g,
   let ty := chain_rtype v prev (map fst cs) in
   v_type (validate_top schema [] q) = Some ty /\ np o /\ typed_outcome o ty.
 Proof.
-  intros uni eng schema k ks fs us cs prev v doc g Hwf Hw Hv Hne Hcs Hrc Hel Hwp q Hacc Hkw Hty Hpl Hside o ty.
+  intros uni eng schema k ks fs us cs prev v doc g Hwf Hw Hv Hne Hcs Hrc Hwp q Hacc Hkw Hty Hpl Hside o ty.
   assert (Ha : chain_accepts func_table v prev fs = true).
   { destruct (C14b_chain_reported_type func_table schema k ks fs us prev Hwf Hw)
       as [v' [Hv' [_ [_ [_ [_ Riff]]]]]].
     rewrite Hv in Hv'. injection Hv' as <-.
     apply Riff; [|exact Hacc]. apply lit_wellposed_sound. exact Hwp. }
-  exact (C14b_chain_sound uni eng schema k ks fs us cs prev v doc g Hwf Hw Hv Hne Hcs Hrc Hel Ha Hkw Hty Hpl Hside).
+  exact (C14b_chain_sound uni eng schema k ks fs us cs prev v doc g Hwf Hw Hv Hne Hcs Hrc Ha Hkw Hty Hpl Hside).
 Qed.
 
 (** ** chains that need no side condition on the intermediate values: no call
@@ -794,7 +798,7 @@ Corollary C14b_chain_sound_side_free : forall uni eng schema k ks fs us cs prev 
   find_value_at_path schema (k :: ks) = Some v ->
   fs <> [] -> all_some (map call_of fs) = Some cs ->
   forallb (fun c : rcall => rconform (fd_params (fst c)) (snd c)) cs = true ->
-  elem_first_only cs = true -> side_free cs = true ->
+  side_free cs = true ->
   chain_accepts func_table v prev fs = true ->
   key_walk (k :: ks) doc g -> has_type g prev -> plain_strings g ->
   let q := chain_path (k :: ks) fs us in
@@ -802,15 +806,14 @@ Corollary C14b_chain_sound_side_free : forall uni eng schema k ks fs us cs prev 
   let ty := chain_rtype v prev (map fst cs) in
   v_type (validate_top schema [] q) = Some ty /\ np o /\ typed_outcome o ty.
 Proof.
-  intros uni eng schema k ks fs us cs prev v doc g Hwf Hw Hv Hne Hcs Hrc Hel Hsf Hacc Hkw Hty Hpl q o ty.
-  exact (C14b_chain_sound uni eng schema k ks fs us cs prev v doc g Hwf Hw Hv Hne Hcs Hrc Hel Hacc Hkw Hty Hpl
+  intros uni eng schema k ks fs us cs prev v doc g Hwf Hw Hv Hne Hcs Hrc Hsf Hacc Hkw Hty Hpl q o ty.
+  exact (C14b_chain_sound uni eng schema k ks fs us cs prev v doc g Hwf Hw Hv Hne Hcs Hrc Hacc Hkw Hty Hpl
            (side_free_side eng cs g Hsf)).
 Qed.
 
 (** chains of two and of three calls, spelled out *)
 Corollary C14b_chain2_sound : forall eng v d1 a1 d2 a2 g,
   wf v = true -> Forall call_ok [(d1, a1); (d2, a2)] ->
-  ioty_eqb (fd_ret d2) AnyS = false ->
   let t0 := kind_of v in
   let t1 := reported d1 v (Some t0) in
   let t2 := reported d2 v (Some t1) in
@@ -820,21 +823,19 @@ Corollary C14b_chain2_sound : forall eng v d1 a1 d2 a2 g,
            run_func eng (fd_key d2) a2 (convert_number r1) in
   np o /\ typed_outcome o t2.
 Proof.
-  intros eng v d1 a1 d2 a2 g Hwf Hall Hr2 t0 t1 t2 H1 H2 Hty Hpl Hside o.
+  intros eng v d1 a1 d2 a2 g Hwf Hall t0 t1 t2 H1 H2 Hty Hpl Hside o.
   assert (E : o = chain_run eng [(d1, a1); (d2, a2)] g).
   { subst o. cbn [chain_run fst snd].
     destruct (run_func eng (fd_key d1) a1 (convert_number g)); cbn [bind]; try reflexivity.
     destruct (run_func eng (fd_key d2) a2 (convert_number a)); reflexivity. }
   rewrite E. apply (chain_run_sound eng v [(d1, a1); (d2, a2)] g Hwf); try assumption.
   - discriminate.
-  - cbn. rewrite Hr2. reflexivity.
   - subst t0 t1 t2. cbn [map fst chain_admits].
     apply andb_true_iff; split; [exact H1|]. apply andb_true_iff; split; [exact H2|reflexivity].
 Qed.
 
 Corollary C14b_chain3_sound : forall eng v d1 a1 d2 a2 d3 a3 g,
   wf v = true -> Forall call_ok [(d1, a1); (d2, a2); (d3, a3)] ->
-  ioty_eqb (fd_ret d2) AnyS = false -> ioty_eqb (fd_ret d3) AnyS = false ->
   let t0 := kind_of v in
   let t1 := reported d1 v (Some t0) in
   let t2 := reported d2 v (Some t1) in
@@ -846,7 +847,7 @@ Corollary C14b_chain3_sound : forall eng v d1 a1 d2 a2 d3 a3 g,
            run_func eng (fd_key d3) a3 (convert_number r2) in
   np o /\ typed_outcome o t3.
 Proof.
-  intros eng v d1 a1 d2 a2 d3 a3 g Hwf Hall Hr2 Hr3 t0 t1 t2 t3 H1 H2 H3 Hty Hpl Hside o.
+  intros eng v d1 a1 d2 a2 d3 a3 g Hwf Hall t0 t1 t2 t3 H1 H2 H3 Hty Hpl Hside o.
   assert (E : o = chain_run eng [(d1, a1); (d2, a2); (d3, a3)] g).
   { subst o. cbn [chain_run fst snd].
     destruct (run_func eng (fd_key d1) a1 (convert_number g)); cbn [bind]; try reflexivity.
@@ -854,7 +855,6 @@ Proof.
     destruct (run_func eng (fd_key d3) a3 (convert_number a0)); reflexivity. }
   rewrite E. apply (chain_run_sound eng v [(d1, a1); (d2, a2); (d3, a3)] g Hwf); try assumption.
   - discriminate.
-  - cbn. rewrite Hr2, Hr3. reflexivity.
   - subst t0 t1 t2 t3. cbn [map fst chain_admits].
     apply andb_true_iff; split; [exact H1|]. apply andb_true_iff; split; [exact H2|].
     apply andb_true_iff; split; [exact H3|reflexivity].
@@ -970,7 +970,6 @@ Proof.
   - vm_compute. reflexivity.
   - vm_compute. reflexivity.
   - vm_compute. reflexivity.
-  - vm_compute. reflexivity.
   - apply kw_one. vm_compute. reflexivity.
   - eexists _, _. split; [reflexivity|].
     constructor; [right; eexists; reflexivity|]. constructor; [right; eexists; reflexivity|]. constructor.
@@ -978,40 +977,87 @@ Proof.
   - vm_compute. repeat split; intros; discriminate.
 Qed.
 
-(** ** Refutations *)
+(** ** The repaired finding F31, and the refutations that remain *)
 
-(** FINDING.  A chain that CueValidate accepts, with literal arguments that match
-    the descriptors, on a conforming document without numeral strings, whose
-    evaluation fails with a wrong-type error.  opPath.Validate does not advance
-    the cue path over a call, so First (Last, Index) after AsArray still refines
-    its (Any, Single) by the element kind of the list under `$.ls`: it reports
-    (String, Single) where evaluation returns the list itself (AsArray wraps its
-    receiver in a one-element array).  A string function is then accepted on it
-    and fails at run time.  Likewise Number for `$.ln`. *)
-Theorem C14b_asarray_first_refuted :
+(** REPAIRED (finding F31).  opPath.Validate does not advance the cue path over a
+    call, so First (Last, Index) after AsArray used to refine its (Any, Single)
+    by the element kind of the list under `$.ls`: it reported (String, Single)
+    where evaluation returns the list itself (AsArray wraps its receiver in a
+    one-element array); a string function was then accepted on it and failed at
+    run time with a wrong-type error.  Since the repair the element type is
+    reported only when it is the type of the receiver as the previous part
+    reported it: after AsArray (Any, Array) the call reports (Any, Single), which
+    is what it returns, and the string / number function after it is REJECTED
+    (wrong receiver type) — rightly, since its evaluation fails. *)
+Theorem C14b_asarray_first_repaired :
   (* the document conforms to the schema at `$.ls` *)
   has_type (jarr [jstr "x"; jstr "y"]) (PT_String, IO_Array) /\ plain_strings (jarr [jstr "x"; jstr "y"]) /\
-  (* accepted, every call admitted by the reported types *)
-  val "$.ls.AsArray().First()" = accepted SS /\
-  val "$.ls.AsArray().First().Left(1)" = accepted SS /\
-  val "$.ln.AsArray().Last().Add(1)" = accepted NS /\
-  (let fs := [Func false (bs "AsArray") [] (bs "AsArray()"); Func false (bs "First") [] (bs "First()");
-              Func false (bs "Left") [FPNum (mkDec 1 0)] (bs "Left(1)")] in
+  (* accepted, reported as (Any, Single) *)
+  val "$.ls.AsArray().First()" = accepted AnyS /\
+  val "$.ln.AsArray().Last()" = accepted AnyS /\
+  (* a string / number function on that result is rejected; the type reported is still its Returns *)
+  val "$.ls.AsArray().First().Left(1)" = Some (Ok (mkVres false true (Some SS) [EWrongReceiverType])) /\
+  val "$.ln.AsArray().Last().Add(1)" = Some (Ok (mkVres false true (Some NS) [EWrongReceiverType])) /\
+  (let fs2 := [Func false (bs "AsArray") [] (bs "AsArray()"); Func false (bs "First") [] (bs "First()")] in
+   let fs3 := fs2 ++ [Func false (bs "Left") [FPNum (mkDec 1 0)] (bs "Left(1)")] in
    parse_string uni_ascii (bs "$.ls.AsArray().First().Left(1)")
-   = Ok (chain_path [bs "ls"] fs (bs "$.ls.AsArray().First().Left(1)")) /\
-   chain_accepts func_table (CList true CStr) (PT_String, IO_Array) fs = true /\
-   lit_wellposed (CList true CStr) (PT_String, IO_Array) fs = true) /\
-  (* evaluated: First returns the list, not a string *)
+   = Ok (chain_path [bs "ls"] fs3 (bs "$.ls.AsArray().First().Left(1)")) /\
+   chain_accepts func_table (CList true CStr) (PT_String, IO_Array) fs2 = true /\
+   chain_types func_table (CList true CStr) (Some (PT_String, IO_Array)) fs2 = Some AnyS /\
+   chain_accepts func_table (CList true CStr) (PT_String, IO_Array) fs3 = false /\
+   lit_wellposed (CList true CStr) (PT_String, IO_Array) fs3 = true) /\
+  (* evaluated: First returns the list, which the reported (Any, Single) allows *)
   run "$.ls.AsArray().First()" ex_doc = Some (Ok (jarr [jstr "x"; jstr "y"])) /\
+  typed_outcome (Ok (jarr [jstr "x"; jstr "y"])) AnyS /\
+  (* the rejected queries do fail with a wrong-type error *)
   (exists e, run "$.ls.AsArray().First().Left(1)" ex_doc = Some (Err e) /\ wrong_type_err e = true) /\
   (exists e, run "$.ln.AsArray().Last().Add(1)" ex_doc = Some (Err e) /\ wrong_type_err e = true).
 Proof.
   split; [eexists _, _; split; [reflexivity|]; repeat constructor; eexists; reflexivity|].
   split; [split; [exact I|]; repeat constructor; vm_compute; reflexivity|].
-  split; [vm_compute; reflexivity|]. split; [vm_compute; reflexivity|]. split; [vm_compute; reflexivity|].
-  split; [cbv zeta; split; [vm_compute; reflexivity|]; split; vm_compute; reflexivity|].
+  split; [vm_compute; reflexivity|]. split; [vm_compute; reflexivity|].
+  split; [vm_compute; reflexivity|]. split; [vm_compute; reflexivity|].
+  split; [cbv zeta; split; [vm_compute; reflexivity|]; repeat split; vm_compute; reflexivity|].
   split; [vm_compute; reflexivity|].
+  split; [exact I|].
   split; eexists; split; vm_compute; reflexivity.
+Qed.
+
+(** C14b_chain_sound_cue now covers an element-returning function after another
+    call: `$.ls.AsArray().First()` *)
+Example C14b_asarray_first_sound :
+  forall t, parse_string uni_ascii (bs "$.ls.AsArray().First()") = Ok t ->
+  v_type (validate_top ex_schema [] t) = Some AnyS /\
+  np (do_top uni_ascii no_engines t ex_doc) /\
+  typed_outcome (do_top uni_ascii no_engines t ex_doc) AnyS.
+Proof.
+  intros t Ht.
+  set (fs := [Func false (bs "AsArray") [] (bs "AsArray()"); Func false (bs "First") [] (bs "First()")]).
+  assert (Hp : parse_string uni_ascii (bs "$.ls.AsArray().First()") =
+    Ok (chain_path [bs "ls"] fs (bs "$.ls.AsArray().First()"))) by (vm_compute; reflexivity).
+  rewrite Hp in Ht. injection Ht as <-.
+  assert (Hne : fs <> []) by discriminate.
+  destruct (all_some (map call_of fs)) as [cs|] eqn:Ecs; [|vm_compute in Ecs; discriminate].
+  pose proof (C14b_chain_sound_cue uni_ascii no_engines ex_schema (bs "ls") [] fs (bs "$.ls.AsArray().First()")
+                cs (PT_String, IO_Array) (CList true CStr) ex_doc (jarr [jstr "x"; jstr "y"])
+                eq_refl eq_refl eq_refl Hne Ecs) as H.
+  vm_compute in Ecs. injection Ecs as <-.
+  apply H; clear H.
+  - vm_compute. reflexivity.
+  - vm_compute. reflexivity.
+  - vm_compute. reflexivity.
+  - apply kw_one. vm_compute. reflexivity.
+  - eexists _, _. split; [reflexivity|]. repeat constructor; eexists; reflexivity.
+  - split; [exact I|]. repeat constructor; vm_compute; reflexivity.
+  - (* not by vm_compute on the whole goal: [plain_strings] of the intermediate list holds a
+       [Forall plain_string], whose predicate would be normalised under its binder *)
+    assert (E1 : run_func no_engines "AsArray" [] (convert_number (jarr [jstr "x"; jstr "y"]))
+                 = Ok (jarr [jarr [jstr "x"; jstr "y"]])) by (vm_compute; reflexivity).
+    assert (E2 : run_func no_engines "First" [] (convert_number (jarr [jarr [jstr "x"; jstr "y"]]))
+                 = Ok (jarr [jstr "x"; jstr "y"])) by (vm_compute; reflexivity).
+    cbn [chain_side fst snd fd_key]. rewrite E1.
+    split; [reflexivity|]. split; [intros _ _; split; [exact I|]; repeat constructor|].
+    rewrite E2. split; [reflexivity|]. split; [intros Hn; exfalso; apply Hn; reflexivity|exact I].
 Qed.
 
 (** the numeral-string deviation (F23) arises INSIDE a chain from a document
@@ -1032,9 +1078,10 @@ Qed.
 
 (** the gap of C14_any_single_array_gap_accepted inside a chain: First (ValidOn
     Any Array) is accepted on the Number that Count returns (not [admits]-ed, so
-    outside [chain_accepts]); it reports the element type of `$.ls` and fails *)
+    outside [chain_accepts]); since the repair of F31 it reports (Any, Single) instead
+    of the element type of `$.ls` (the receiver type is Number, not String); it fails *)
 Theorem C14b_gap_chain_accepted :
-  val "$.ls.Count().First()" = accepted SS /\
+  val "$.ls.Count().First()" = accepted AnyS /\
   (let fs := [Func false (bs "Count") [] (bs "Count()"); Func false (bs "First") [] (bs "First()")] in
    parse_string uni_ascii (bs "$.ls.Count().First()")
    = Ok (chain_path [bs "ls"] fs (bs "$.ls.Count().First()")) /\
@@ -1056,7 +1103,7 @@ Check C14b_chain_sound_side_free.
 Check C14b_chain2_sound.
 Check C14b_chain3_sound.
 Check C14b_examples.
-Check C14b_asarray_first_refuted.
+Check C14b_asarray_first_repaired.
 Check C14b_numeral_intermediate_refuted.
 Check C14b_gap_chain_accepted.
 
@@ -1072,6 +1119,7 @@ Print Assumptions C14b_parser_shapes.
 Print Assumptions C14b_examples.
 Print Assumptions C14b_examples_by_theorem.
 Print Assumptions C14b_example_sound.
-Print Assumptions C14b_asarray_first_refuted.
+Print Assumptions C14b_asarray_first_repaired.
+Print Assumptions C14b_asarray_first_sound.
 Print Assumptions C14b_numeral_intermediate_refuted.
 Print Assumptions C14b_gap_chain_accepted.
